@@ -386,3 +386,9 @@ Proof.
     + apply (inv_cw _ _ I).
   - split; intros _; auto.
 Qed.
+
+Lemma td_new_ok k : (10 <= k)%Z -> exists d, td_new k = Ok d.
+Proof. intros H. unfold td_new. rewrite MIN_K_eq. replace (k <? 10)%Z with false by lia. eauto. Qed.
+
+Lemma inproc_wf_view h d : reach h d -> td_buf d = [] -> td_cs d <> [] -> wf_view (td_view d).
+Proof. intros R B C. apply (inproc_view_wf h d R B C). Qed.
